@@ -35,6 +35,14 @@ type c11Script struct {
 	fc     actions.FlowControl
 	npub   int
 	client func(conn *memConn, got <-chan uuid.UUID, w *world.World)
+	// warm: the stream is opened, given its flow control and run FREE until it is
+	// quiescent (first message sent if any is published); only what the clients do
+	// afterwards is explored.  The id of the first message is in conn.share (twice).
+	warm bool
+	// bound: preemption bound override per tier (0 = the layer's default)
+	boundQuick, boundThorough int
+	// client2: an optional second concurrent client
+	client2 func(conn *memConn, got <-chan uuid.UUID, w *world.World)
 	// sub: the subscription the stream is opened on (default c11Sub)
 	sub string
 	// prep runs after the npub publishes, before the state is saved
@@ -154,12 +162,29 @@ func c11Scripts() []c11Script {
 	}
 }
 
+
+// twoWakeUps: the stream is blocked by flow control (1 message, d1 outstanding,
+// m2 queued); a publish and an external Acknowledge of d1 land in quick
+// succession.  Whatever the interleaving of the two commits with the streamer's
+// refresh pass, m2 must be sent.
+func twoWakeUps(name string) c11Script {
+	return c11Script{name: name, fc: actions.FlowControl{MaxMessages: 1, MaxBytes: 1000}, npub: 2, want: 2, warm: true, boundQuick: 2, boundThorough: 3,
+		client: func(conn *memConn, got <-chan uuid.UUID, w *world.World) {
+			<-conn.share
+			w.Pub.Publish(vsql.WithThread(context.Background(), "client"), &pubsubpb.PublishRequest{Topic: c11Topic, Messages: []*pubsubpb.PubsubMessage{{Data: payloadOf(10)}}})
+		},
+		client2: func(conn *memConn, got <-chan uuid.UUID, w *world.World) {
+			id := <-conn.share
+			w.Sub.Acknowledge(vsql.WithThread(context.Background(), "client2"), &pubsubpb.AcknowledgeRequest{Subscription: c11Sub, AckIds: []string{id.String()}})
+		}}
+}
+
 func c11Interleavings(t *testing.T, tier string, deadline time.Time) (map[string]any, []report.Viol, error) {
-	return streamInterleavings(t, "C11", c11Scripts(), tier, deadline)
+	return streamInterleavings(t, "C11", append(c11Scripts(), twoWakeUps("publish and external Acknowledge in quick succession")), tier, deadline)
 }
 
 func c10Interleavings(t *testing.T, tier string, deadline time.Time) (map[string]any, []report.Viol, error) {
-	return streamInterleavings(t, "C10", c10StreamScripts(), tier, deadline)
+	return streamInterleavings(t, "C10", append(c10StreamScripts(), twoWakeUps("stream blocked by flow control: publish and external Acknowledge in quick succession")), tier, deadline)
 }
 
 func streamInterleavings(t *testing.T, prop string, scripts []c11Script, tier string, deadline time.Time) (map[string]any, []report.Viol, error) {
@@ -252,7 +277,7 @@ func streamInterleavings(t *testing.T, prop string, scripts []c11Script, tier st
 				verdict := ""
 				curMax := sc.fc.MaxMessages
 				got := make(chan uuid.UUID, 16)
-				conn := &memConn{reqs: make(chan *actions.MessageStreamRequest)}
+				conn := &memConn{reqs: make(chan *actions.MessageStreamRequest), share: make(chan uuid.UUID, 4)}
 				conn.onSend = func(d *actions.SubscriptionMessageDelivery) {
 					vmu.Lock()
 					defer vmu.Unlock()
@@ -277,11 +302,28 @@ func streamInterleavings(t *testing.T, prop string, scripts []c11Script, tier st
 				ctx, cancel := context.WithCancel(vsql.WithThread(context.Background(), "stream"))
 				done := make(chan error, 1)
 				ms := &actions.MessageStreamer{Client: w.Client, SubscriptionID: &subID, SubscriptionName: sc.sub, AutomaticNack: true}
-				r.Go("streamer", func() { done <- ms.Go(ctx, conn) })
-				r.Go("client", func() {
+				if sc.warm {
+					r.SetFree(true)
+					r.Go("streamer", func() { done <- ms.Go(ctx, conn) })
 					conn.reqs <- &actions.MessageStreamRequest{FlowControl: &actions.FlowControl{MaxMessages: sc.fc.MaxMessages, MaxBytes: sc.fc.MaxBytes}}
-					sc.client(conn, got, w)
-				})
+					if sc.npub > 0 {
+						id := <-got
+						conn.share <- id
+						conn.share <- id
+					}
+					synctest.Wait()
+					r.SetFree(false)
+					r.Go("client", func() { sc.client(conn, got, w) })
+				} else {
+					r.Go("streamer", func() { done <- ms.Go(ctx, conn) })
+					r.Go("client", func() {
+						conn.reqs <- &actions.MessageStreamRequest{FlowControl: &actions.FlowControl{MaxMessages: sc.fc.MaxMessages, MaxBytes: sc.fc.MaxBytes}}
+						sc.client(conn, got, w)
+					})
+				}
+				if sc.client2 != nil {
+					r.Go("client2", func() { sc.client2(conn, got, w) })
+				}
 				err := r.RunToQuiescence(prefix, expect)
 				if err == nil && verdict == "" {
 					// no-stall: everything published must have been sent by now (each
@@ -314,7 +356,14 @@ func streamInterleavings(t *testing.T, prop string, scripts []c11Script, tier st
 				r.Finish()
 				return r.Points, r.Choices, verdict, err
 			}
-			res, err := sched.Explore(exec, bound, 0, func() bool { return time.Now().After(deadline) })
+			bound := bound
+			if tier != "thorough" && sc.boundQuick > 0 {
+				bound = sc.boundQuick
+			}
+			if tier == "thorough" && sc.boundThorough > 0 {
+				bound = sc.boundThorough
+			}
+			res, err := sched.Explore(exec, bound, 0, func() bool { return report.RealNow().After(deadline) })
 			if err != nil {
 				ferr = fmt.Errorf("%s: %w", sc.name, err)
 				return
